@@ -61,8 +61,7 @@ pub fn files(tier: Tier, seed: u64) -> Vec<CutFile> {
         raw.push((name, bytes, init));
     }
     let mut only_of: std::collections::HashMap<String, Vec<usize>> = Default::default();
-    {
-        let (name, bytes, cuts) = crate::refmp4::kitchen::cut_large_sample();
+    for (name, bytes, cuts) in [crate::refmp4::kitchen::cut_large_sample(), crate::refmp4::kitchen::cut_very_large_sample()] {
         only_of.insert(name.clone(), cuts);
         raw.push((name, bytes, None));
     }
